@@ -35,18 +35,27 @@ fn usage() -> ! {
 
 fn default_runs(prop: Prop, tier: Tier) -> u64 {
     let q = match prop {
-        Prop::C01 => 2_000_000,
+        Prop::C01 => 1_000_000,
         Prop::C02 => 2_000_000,
         Prop::C03 => 2_000_000,
         Prop::C11 => 2_000_000,
         Prop::C14 => 3_000_000,
         Prop::C16 => 1_500_000,
-        Prop::C18 => 800_000,
+        Prop::C18 => 600_000,
         Prop::C19 => 1_500_000,
     };
     match tier {
         Tier::Quick => q,
-        Tier::Thorough => q * 20,
+        Tier::Thorough => match prop {
+            Prop::C01 => 20_000_000,
+            Prop::C02 => 40_000_000,
+            Prop::C03 => 40_000_000,
+            Prop::C11 => 30_000_000,
+            Prop::C14 => 60_000_000,
+            Prop::C16 => 20_000_000,
+            Prop::C18 => 8_000_000,
+            Prop::C19 => 15_000_000,
+        },
     }
 }
 
